@@ -76,6 +76,11 @@ fn lib_err<T>(e: sd_jwt_rs::error::Error) -> Out<T> {
 fn from_job<T>(r: Result<Out<T>, PanicInfo>) -> Out<T> {
     match r {
         Ok(o) => o,
+        // the deterministic-salt build panics by design when its salt queue runs dry; with the
+        // harness-managed queue that is a limit of the harness (more disclosures in one call than
+        // the top-up), not behaviour of the code under test
+        #[cfg(feature = "mock")]
+        Err(p) if p.msg.contains("SALTS is empty") && auto_salts::ENABLED.load(std::sync::atomic::Ordering::SeqCst) => Out::Err { variant: "HarnessSaltQueueExhausted".into(), msg: p.msg },
         Err(p) => Out::Panic(p),
     }
 }
@@ -170,8 +175,43 @@ pub fn strat_to_lib(s: &Strat) -> ClaimsForSelectiveDisclosureStrategy<'_> {
     }
 }
 
+/// Alternate build leg (sd-jwt-rs with feature mock_salts): the honest issuer takes its salts
+/// from the library's process-wide queue, which the harness keeps topped up with 128-bit values
+/// of a generator reseeded per world (C16's own scenarios manage the queue themselves).
+#[cfg(feature = "mock")]
+pub mod auto_salts {
+    use crate::rng::Rng;
+    use std::sync::atomic::{AtomicBool, Ordering};
+    use std::sync::Mutex;
+    pub static ENABLED: AtomicBool = AtomicBool::new(false);
+    static GEN: Mutex<Option<Rng>> = Mutex::new(None);
+    pub fn new_world() {
+        if !ENABLED.load(Ordering::SeqCst) {
+            return;
+        }
+        let st = crate::seams::entropy_state();
+        *GEN.lock().unwrap_or_else(|e| e.into_inner()) = Some(Rng::new(crate::rng::mix(&[st[0], st[1], st[2], st[3], 0x5a17])));
+        sd_jwt_rs::utils::SALTS.lock().unwrap_or_else(|e| e.into_inner()).clear();
+    }
+    pub fn top_up() {
+        if !ENABLED.load(Ordering::SeqCst) {
+            return;
+        }
+        let mut g = GEN.lock().unwrap_or_else(|e| e.into_inner());
+        let rng = g.get_or_insert_with(|| Rng::new(1));
+        let mut q = sd_jwt_rs::utils::SALTS.lock().unwrap_or_else(|e| e.into_inner());
+        while q.len() < 20_000 {
+            let mut b = [0u8; 16];
+            rng.fill(&mut b);
+            q.push_back(crate::model::b64e(&b));
+        }
+    }
+}
+
 impl World {
     pub fn new(directory: BTreeMap<String, String>) -> World {
+        #[cfg(feature = "mock")]
+        auto_salts::new_world();
         World { rt: Runtime::new(), directory: Arc::new(directory), signed_by: BTreeMap::new(), kb_made: BTreeMap::new(), ops: 0, panics: Vec::new() }
     }
 
@@ -193,6 +233,8 @@ impl World {
         let claims = claims.clone();
         let strat = strat.clone();
         let hk = holder_key.map(keys::jwk);
+        #[cfg(feature = "mock")]
+        auto_salts::top_up();
         let r = self.rt.call_typed(node, move || {
             let mut g = issuer.lock().unwrap_or_else(|e| e.into_inner());
             match g.get().issue_sd_jwt(claims, strat_to_lib(&strat), hk, decoys, fmt.lib()) {
